@@ -288,7 +288,7 @@ def coop : P String := do
   let mode ← P.tok; let S ← P.nats; let A ← P.nats
   let blocks ← P.list parentBlock; let bases ← P.list basisBlock
   let s ← P.nats; let a ← P.nats; let us ← P.qs; P.bar
-  let s1 ← P.nats; let rew ← P.q; let rews ← P.qs; P.eof
+  let s1 ← P.nats; let rew ← P.q; let rews ← P.qs; let tp ← P.q; P.eof
   let comp := "CooperativeModel::sample" ++ (if mode == "srs" then "SRs" else "SR")
   let parents := blocks.map (·.1); let T := blocks.map (·.2)
   if us.length != parents.length || s1.length != parents.length then P.fail
@@ -302,6 +302,9 @@ def coop : P String := do
   let v := if mode == "srs" then
       v.failIf (rews != (coopSampleSRs S A parents T bases s a us).2) s!"{comp} wrong_basis_rewards impl={rews.map ratStr}"
     else v
+  -- `DDN::getTransitionProbability(s,a,s1)` = product of the selected rows' entries = volume of the box of draws mapped to s1
+  let mtp := (rowsSel.zip s1).foldl (fun acc (row, k) => acc * row.getD k 0) 1
+  let v := v.diffIf (!(closeQ tolCmp mtp tp)) s!"{comp} getTransitionProbability model={ratStr mtp} impl={ratStr tp}"
   let v := if v.tag == "illc" then v else v.diffIf ((coopSampleSR S A parents T bases s a us).1 != s1)
     s!"{comp} model={(coopSampleSR S A parents T bases s a us).1} impl={s1}"
   return v.render
@@ -316,7 +319,8 @@ def dir : P String := do
   let v : Verdict := { tag := if gs.length ≤ 1 then "trivial" else "dir" }
   let v := v.failIf (out.length != gs.length) s!"{comp} wrong_length {out.length}"
   let v := v.failIf (!(out.all (fun x => decide (0 ≤ x)) && isProb out)) s!"{comp} not_probability sum={ratStr out.sum}"
-  let v := v.diffIf (!(closeL (dirichletFromGammas gs) out)) s!"{comp} model={(dirichletFromGammas gs).map ratStr} impl={out.map ratStr}"
+  -- the defining clause of the sampler: the normalised gamma draws (Dirichlet(α) = (Γ(α_i))_i / Σ)
+  let v := v.failIf (!(closeL (dirichletFromGammas gs) out)) s!"{comp} not_normalised_gamma_draws model={(dirichletFromGammas gs).map ratStr} impl={out.map ratStr}"
   let v := v.diffIf (!insync) s!"{comp} draws_consumed"
   return v.render
 
@@ -327,7 +331,8 @@ def beta : P String := do
   if !(decide (0 < x) && decide (0 < y)) then return "skip gamma_draw_not_positive" else
   let v : Verdict := { tag := "beta" }
   let v := v.failIf (!(decide (0 ≤ r) && decide (r ≤ 1))) s!"{comp} outside_unit_interval {ratStr r}"
-  let v := v.diffIf (!(closeQ tolCmp (betaFromGammas x y) r)) s!"{comp} model={ratStr (betaFromGammas x y)} impl={ratStr r}"
+  -- the defining clause: Beta(a,b) = X / (X + Y) with X ~ Γ(a), Y ~ Γ(b) drawn in this order
+  let v := v.failIf (!(closeQ tolCmp (betaFromGammas x y) r)) s!"{comp} not_gamma_ratio model={ratStr (betaFromGammas x y)} impl={ratStr r}"
   let v := v.diffIf (!insync) s!"{comp} draws_consumed"
   return v.render
 
